@@ -22,3 +22,7 @@
 ./tools_mut.py C19 fake_ble.py '        if buf[0] == 0x0A and len(buf) == 2:  # if data' '        if buf[0] == 0x0A:  # if data'
 ./tools_mut.py C19 fake_ble.py 'self.mac: Union[bytes, bytearray] = bytes(buffer[2:8])' 'self.mac: Union[bytes, bytearray] = bytes([buffer[40]])'
 ./tools_mut.py C19 fake_ble.py 'self._type += bytes([0x10]) + struct.pack(">b", -25)' 'self._type += struct.pack(">b", -25)'
+./tools_mut.py C19 fake_ble.py 'self.pa_level = struct.unpack("b", buf[1:2])[0]' 'self.pa_level = buf[1]'
+./tools_mut.py C19 fake_ble.py 'self.pa_level = struct.unpack("b", buf[1:2])[0]' 'self.pa_level = int.from_bytes(buf[1:2], "little", signed=True)'
+./tools_mut.py C19 fake_ble.py 'end = self.rx_cache[1] + 2' 'end = (self.rx_cache[1] & 0xFF) + 2'
+./tools_mut.py C19 fake_ble.py 'end = self.rx_cache[1] + 2' 'end = (self.rx_cache[1] & 0x3F) + 2'
